@@ -528,6 +528,15 @@ func c19Selector(c *core.Ctx, pkg *packages.Package) {
 					copied = true
 				}
 			}
+			// other spellings of "a fresh copy of the argument": slices.Clone(p0), append([]string(nil), p0...)
+			if v, ok := list.(*types.Var); ok {
+				if d, ok := fn.SingleDefExpr(v); ok {
+					dc := fn.Canon(d)
+					if dc == "slices.Clone(p0)" || dc == "append(nil, p0)" || dc == "append([]string{}, p0)" {
+						copied = true
+					}
+				}
+			}
 			ok = list != nil && fn.ObjOf(srt.Expr.Args[0]) == list && g.NodeBefore(srt.Expr, res[0].Expr) && copied && fn.Canon(asg.Rhs[0]) == fn.Canon(res[0].Expr)+"#0"
 			detail = fmt.Sprintf("addrs = %s; natural sort of the copied list dominates resolution=%v; list is a copy of the argument=%v", fn.Canon(asg.Rhs[0]), g.NodeBefore(srt.Expr, res[0].Expr), copied)
 		}
